@@ -70,8 +70,9 @@ def has_quantifier(t):
     if not z3.is_expr(t):
         return False
     key = t.get_id()
-    if key in _QCACHE:
-        return _QCACHE[key]
+    hit = _QCACHE.get(key)
+    if hit is not None and hit[0].eq(t):      # the cached term is kept alive, so its id cannot be reused
+        return hit[1]
     stack = [t]
     seen = set()
     res = False
@@ -85,7 +86,9 @@ def has_quantifier(t):
             res = True
             break
         stack.extend(x.children())
-    _QCACHE[key] = res
+    if len(_QCACHE) > 20000:
+        _QCACHE.clear()
+    _QCACHE[key] = (t, res)
     return res
 
 
